@@ -16,6 +16,8 @@ pub fn kgen() -> Vec<NB> {
     .chain([NB::new("key55", &[b'k'; 55]), NB::new("key56", &[b'k'; 56]), NB::new("key-nonascii", &[0xff, 0x00, 0x80])])
     // look-alikes of reserved keys: ordinary custom keys for every rule
     .chain(["i", "ip4", "tcp66", "udp4", "ID", "secp256k", "secp256k11", "ed2551", "client2"].iter().map(|k| NB::new(k, k.as_bytes())))
+    // keys in use in the wild, none of them typed by EIP-778
+    .chain(["quic", "quic6", "eth", "eth2", "attnets", "syncnets", "les", "snap", "opstack", "nfd", "csc", "cgc", "rlpx"].iter().map(|k| NB::new(k, k.as_bytes())))
     .collect()
 }
 
@@ -43,6 +45,15 @@ pub fn bad_ed_pk() -> Vec<u8> {
     unreachable!()
 }
 
+/// A valid 65-byte SEC1 encoding of secp key 1: uncompressed (04) or hybrid (06/07 by parity of y).
+pub fn secp65(hybrid: bool) -> Vec<u8> {
+    let pk = K256S::pub_raw(1);
+    let xy = rc::secp_uncompressed(rc::Lib::LibSecp, &pk).expect("valid");
+    let mut v = vec![if hybrid { 6 + (xy[63] & 1) } else { 4 }];
+    v.extend_from_slice(&xy);
+    v
+}
+
 pub fn raws<S: Sch>() -> Vec<NB> {
     let own = rlp::enc_str(&S::pub_raw(0));
     let other = rlp::enc_str(&S::pub_raw(1));
@@ -65,6 +76,8 @@ pub fn raws<S: Sch>() -> Vec<NB> {
         NB::new("valid-ed-pk", &ed),
         NB::new("bad-secp-pk", &rlp::enc_str(&bad_secp_pk())),
         NB::new("bad-ed-pk", &rlp::enc_str(&bad_ed_pk())),
+        NB::new("secp-uncompressed65", &rlp::enc_str(&secp65(false))),
+        NB::new("secp-hybrid65", &rlp::enc_str(&secp65(true))),
         NB::new("empty-list", &[0xc0]),
         NB::new("list2", &[0xc2, 0x01, 0x02]),
         NB::new("nested-list", &[0xc4, 0xc2, 0x01, 0x02, 0x03]),
